@@ -36,6 +36,10 @@ def diff_canon(gen: dict, ref: dict, limit=40) -> list[str]:
     for key in ("api_key_map", "schema_name_map"):
         if gen[key] != ref[key]:
             out.append(f"{key} differs")
+    ga, ra = gen.get("entity_types", {}), ref.get("entity_types", {})
+    for n in sorted(set(ga) | set(ra)):
+        if ga.get(n) != ra.get(n):
+            out.append(f"kio.schema.types.{n}: {json.dumps(ga.get(n))} != {json.dumps(ra.get(n))}")
     return out[:limit] + ([f"... {len(out) - limit} more"] if len(out) > limit else [])
 
 
